@@ -853,8 +853,14 @@ class Unit:
                 eds.insert(0, (b1, b1, " }", None))
             self._log("E8", src, n["span"][0], src.text(n["span"][0], n["or2"]), hdr)
         # proof insertions (ghost only)
+        nloops = len([x for x in nodes if x["k"] == "loop"])
         for anchor, c in spec.proofs:
             if not c.applies(self.prop) and False:
+                continue
+            ma = re.match(r"loop_(?:begin|end)\s+(\d+)$", anchor.strip())
+            if ma and int(ma.group(1)) >= nloops:
+                # the hint belongs to a trailing loop the code no longer has (e.g. `while let` became
+                # `if let`): without the loop there is nothing to hint; the function's own clauses decide
                 continue
             pos = self._proof_pos(src, it, anchor, key)
             pre = ""
